@@ -65,11 +65,11 @@ def validate(module, obs, consts=None, chunk=20000, threads=8, timeout=3000, inv
 
 # ---- records <-> DKVP text (rendering only) ----------------------------------------------------
 
-def dkvp(stream):
-    return "".join(",".join("%s=%s" % (k, v) for k, v in rec) + "\n" for rec in stream)
+def dkvp(stream, sep=","):
+    return "".join(sep.join("%s=%s" % (k, v) for k, v in rec) + "\n" for rec in stream)
 
 
-def parse_dkvp(text):
+def parse_dkvp(text, sep=","):
     out = []
     lines = text.split("\n")
     if lines and lines[-1] == "":
@@ -77,7 +77,7 @@ def parse_dkvp(text):
     for line in lines:
         rec = []
         if line != "":
-            for pair in line.split(","):
+            for pair in line.split(sep):
                 k, _, v = pair.partition("=")
                 rec.append([k, v])
         out.append(rec)
